@@ -101,7 +101,11 @@ func startTime(r *core.Rand) string {
 func GenTripDesc(r *core.Rand, n int) *gtfsrt.TripDescriptor {
 	d := &gtfsrt.TripDescriptor{}
 	if r.Chance(2, 3) {
-		d.TripId = S(fmt.Sprintf("%s%d", core.Pick(r, idPool), n))
+		k := n
+		if n > 0 && r.Chance(1, 4) {
+			k = r.Intn(n) // the same trip_id as another trip, told apart by the other descriptor fields
+		}
+		d.TripId = S(fmt.Sprintf("%s%d", idPool[k%len(idPool)], k))
 		if r.Chance(1, 12) {
 			d.TripId = S("") // present but empty
 		}
@@ -126,22 +130,28 @@ func GenTripDesc(r *core.Rand, n int) *gtfsrt.TripDescriptor {
 }
 
 // GenVehDesc draws a non-empty vehicle descriptor (id, label only, plate only, or mixtures).
+// Strings come from small pools shared by all three fields, so distinct vehicles
+// often carry the same text in different fields or splits of the same digits.
 func GenVehDesc(r *core.Rand, n int) *gtfsrt.VehicleDescriptor {
 	d := &gtfsrt.VehicleDescriptor{}
-	switch r.Intn(6) {
+	pool := []string{"7001", "70", "01", "7", "001", "700", "1", "same", fmt.Sprintf("v%d", n), fmt.Sprintf("é%d", n)}
+	switch r.Intn(7) {
 	case 0:
-		d.Label = S(fmt.Sprintf("label%d", n))
+		d.Label = S(core.Pick(r, pool))
 	case 1:
-		d.LicensePlate = S(fmt.Sprintf("PL %d", n))
+		d.LicensePlate = S(core.Pick(r, pool))
 	case 2:
-		d.Id = S(fmt.Sprintf("v%d", n))
-		d.Label = S(core.Pick(r, []string{"", "L", "same"}))
+		d.Id = S(core.Pick(r, pool))
+		d.Label = S(core.Pick(r, append([]string{""}, pool...)))
 	case 3:
-		d.Id = S(fmt.Sprintf("v%d", n))
-		d.Label = S("same")
-		d.LicensePlate = S(core.Pick(r, []string{"", "P"}))
+		d.Id = S(core.Pick(r, pool))
+		d.Label = S(core.Pick(r, pool))
+		d.LicensePlate = S(core.Pick(r, append([]string{""}, pool...)))
+	case 4:
+		d.Label = S(core.Pick(r, pool))
+		d.LicensePlate = S(core.Pick(r, pool))
 	default:
-		d.Id = S(fmt.Sprintf("%s%d", core.Pick(r, []string{"v", "V", "é", "1"}), n))
+		d.Id = S(core.Pick(r, pool))
 	}
 	return d
 }
